@@ -23,7 +23,7 @@ def jobs(tier, seed):
         if j['name'] == 'align' and j['opts']['extras'][0]['desc_len'] % 32 != 31: continue      # the alignment sweep is C04's subject; keep the 255-character cases
         out.append(dict(j, family='load-save-load'))
     for j in histcommon.hist_jobs(tier, seed, finish=1):
-        if tier == 'quick' and j['cfg']['start'] in (1, 3): continue      # quick: fresh, populated and fewer-labels start states (the others are C05/C07/C10's daily runs, same monitors)
+        if tier == 'quick' and j['cfg']['start'] in (1, 3, 5): continue      # quick: fresh, populated and fewer-labels start states (the others are C05/C07/C10's daily runs, same monitors)
         out.append(dict(j, family='history'))
     for j in c06.jobs(tier, seed): out.append(dict(j, family='frame-store'))
     for j in c08.jobs(tier, seed): out.append(dict(j, family='aliasing'))
@@ -40,8 +40,8 @@ def run_job(engine, job):
     files = None; assume = None; fam = job['family']
     if fam == 'load-save-load':
         S, c, lay, cells = c02.build_file(job); files = {'in.c3d': gen.to_engine_cells(cells)}; assume = S.cons
-    elif fam == 'history' and job['cfg'].get('start') in (3, 4):
-        S, cells = histcommon.start_file(fewer=job['cfg']['start'] == 4); files = {'in.c3d': gen.to_engine_cells(cells)}; assume = S.cons
+    elif fam == 'history' and job['cfg'].get('start') in (3, 4, 5):
+        S, cells = histcommon.start_file(fewer=job['cfg']['start'] == 4, empty_analog=job['cfg']['start'] == 5); files = {'in.c3d': gen.to_engine_cells(cells)}; assume = S.cons
     elif fam == 'tree-edits' and job['cfg'].get('start') == 2:
         S, cells = c09.dup_group_file(); files = {'in.c3d': gen.to_engine_cells(cells)}; assume = S.cons
     elif fam == 'tree-edits' and job['cfg'].get('start') == 1:
